@@ -24,7 +24,7 @@ CLAIMED = {
          "Refusal x state coverage is measured on the model graph, not hoped for."),
  "C06": ("model_checking", "5 C06", "CfbHandle (TLA+ transcription of the stream cache) model checked against a reference byte vector; MC_Handle transition coverage and random call sequences replayed on real handles and judged by TLC (Trace_Handle) for every max_buffer_size; a handle that outlives its CompoundFile keeps obeying the byte-vector model for everything it answers with Ok",
          "Exhaustive at model geometry for several buffer sizes; real-scale replays under six buffer sizes x two versions with extreme seek arguments."),
- "C12": ("fault_enumeration", "5 C12", "every k-th backend read/seek fails; TLC (Trace_Handle, ro_faults mode) requires Err or the fault-free result and correct bytes after retry; CfbHandle model checked with one injected fault",
+ "C12": ("fault_enumeration", "5 C12", "every k-th backend read/seek fails; TLC (Trace_Handle, ro_faults mode) requires Err or the fault-free result and correct bytes after retry; CfbHandle model checked with one injected fault; CfbChainIO: the transfer loops below the buffer with failing / interrupted backend calls; injected errors of varying kinds",
          "Every single fault position of the workloads (pairs in thorough); design-level model covers all interleavings of one fault with the cache protocol."),
  "C13": ("fault_enumeration", "5 C13", "design level: MC_Fault model checks CfbFault (the write paths write by write, memory / file split, a failing write, retry, another operation in between) at tiny geometry, and CfbHandle (FlushDurable) with faults; conformance: every k-th backend write/seek/flush of the workloads fails (every position of the short first-use / growth / removal / two-handle workloads); TLC (Trace_Handle, rw_faults mode) requires the call to report the error, no later panic, Ok flush => the bytes are read back by a fresh handle AND from a reopened copy of the file once every failed call has been retried, the backend's flush is reached, no untouched stream is lost; fidelity: Trace_Writes compares CfbFault's predicted order of table writes with the recorded write calls",
          "Every single fault position of the workloads (pairs in thorough) with retry of the failed call."),
@@ -34,7 +34,7 @@ CLAIMED = {
          "Values are opaque tokens for TLC; expected quantisation comes from an independent table."),
  "C14": ("model_checking", "5 C14", "CfbLock (TLA+ model of the writer-preferring RwLock and per-call lock programs) model checked with TLC on programs extracted from the real library under the cfg(cfb_verif) instrumented lock; Trace_Lock validates real multi-threaded runs (NonReentrant, mutual exclusion, linearisable lengths, deadlock on stall); any number of threads: CfbLockN (a holder only releases) proved deadlock-free and mutually exclusive for an arbitrary thread set with tlapm (CfbLockN_proofs, 57 obligations), MC_Lock checks that CfbLock on the extracted programs refines it; buffered data written back by a handle's drop while readers run; a stall in which every unfinished thread waits for the lock or sits on a guard is a deadlock through another lock",
          "Every interleaving of 2-3 readers and the handle thread over the extracted programs; the schedule-independent NonReentrant rule is checked on every recorded acquisition, so the hazard is caught whether or not a run deadlocks."),
- "C18": ("model_checking", "5 C18", "the same TLC-validated script under every configuration (two runs, std::fs::File, chunked/Interrupted in-memory backends, several max_buffer_size values, V3/V4); Trace_Config (TLA+) requires identical results and byte-identical images within a version/buffer group",
+ "C18": ("model_checking", "5 C18", "the same TLC-validated script under every configuration (two runs, std::fs::File, chunked/Interrupted in-memory backends, several max_buffer_size values, V3/V4); Trace_Config (TLA+) requires identical results and byte-identical images within a version/buffer group; design level: CfbChainIO (read_exact / write_all over Chain::read / write over one backend call per sector piece, against every splitting of a transfer by short counts, Interrupted and failures; exhaustive at tiny geometry), bound to the code by the backend-read count of every refill (Trace_HandleFid)",
          "Every run is judged against the same deterministic model, so logical outcomes coincide; byte identity is compared step by step with pinned storage times."),
  "C04": ("model_checking", "5 C04", "Gen_Layout (TLA+ 'foreign writer') enumerates / samples legal physical layouts of logical contents with TLC; an independent builder serialises them; TLC trace validation (Trace_File: WF, Abs, CfbTree) judges what the library exposes after strict and permissive open and what it writes afterwards; empty streams with a stale start field, header fields the format leaves to the writer, whole-entry rewrites after removals on every red-black shape; design level: MC_RB (every sibling tree a strict reader accepts - any search-tree shape, any colouring without a red-red edge - is mapped into the same class by CfbPhys's insertion and removal: inductive, exhaustive up to 6 names); fidelity: Trace_Phys follows the histories from the foreign start image and predicts every table, link and colour byte the library writes afterwards; two FAT sectors placed anywhere",
          "All layouts of the smallest contents, seeded samples of larger ones: any slot assignment with gaps, any valid red-black shape, any sector and mini-sector placement; lookups under case variants and a mutation history on every image."),
@@ -79,7 +79,7 @@ def main():
     m["not_applicable"] = [{"property_id": p["id"], "reason": na.get(p["id"], "machinery for this property is not finished in this round; not claimed")}
                            for p in props if p["id"] not in claimed]
     m["engines"] = [{"name": "tlc-trace-validation", "path": "spec/", "serves_properties": [c["property_id"] for c in checks],
-                     "kind_free_text": "explicit TLA+ specifications (CfbTree, CfbImage, CfbPhys, CfbApi, CfbOpen, CfbFault, CfbDir, CfbHandle, CfbLock, CfbLockN (+ tlapm proofs); generators Gen_Layout / Gen_Deviate / Gen_Corrupt; validators Trace_File / Trace_Phys / Trace_Handle / Trace_Lock / Trace_Config / Trace_Robust) model checked with TLC and bound to the code by trace validation and spec-generated replays"}]
+                     "kind_free_text": "explicit TLA+ specifications (CfbTree, CfbImage, CfbPhys, CfbApi, CfbChainIO, CfbOpen, CfbFault, CfbDir, CfbHandle, CfbLock, CfbLockN (+ tlapm proofs); generators Gen_Layout / Gen_Deviate / Gen_Corrupt; validators Trace_File / Trace_Phys / Trace_Handle / Trace_Lock / Trace_Config / Trace_Robust) model checked with TLC and bound to the code by trace validation and spec-generated replays"}]
     m["hooks"]["source_commits"] = extra.get("hook_commits", HOOK_COMMITS)
     m["notes"] = "bin/check <id> rebuilds the harness against /repo's working tree (cfg cfb_verif), generates scripts (TLC-generated + seeded), runs them on the real library and lets TLC judge every recorded event."
     json.dump(m, open(os.path.join(ROOT, "MANIFEST.json"), "w"), indent=1)
